@@ -783,18 +783,24 @@ type responseChecker struct {
 }
 
 func (rw *responseChecker) EncodeToken(t xml.Token) error {
+	isResp := false
 	switch tok := t.(type) {
 	case xml.StartElement:
 		_, _, id, typ := getIDTyp(tok.Attr)
-		if rw.level < 1 && isIQEmptySpace(tok.Name) && id == rw.id && (typ == string(stanza.ResultIQ) || typ == string(stanza.ErrorIQ)) {
-			rw.wroteResp = true
-		}
+		isResp = rw.level < 1 && isIQEmptySpace(tok.Name) && id == rw.id && (typ == string(stanza.ResultIQ) || typ == string(stanza.ErrorIQ))
 		rw.level++
 	case xml.EndElement:
 		rw.level--
 	}
 
-	return rw.TokenWriter.EncodeToken(t)
+	err := rw.TokenWriter.EncodeToken(t)
+	// A response that the output refused (because it has been closed, or because
+	// an earlier transmission stopped in the middle of an element) is not a
+	// response: the request is still unanswered.
+	if isResp && err == nil {
+		rw.wroteResp = true
+	}
+	return err
 }
 
 func (rw *responseChecker) Encode(v interface{}) error {
